@@ -492,7 +492,9 @@ func genSet(sd int64, id int) (fam, param string, pts []v2.Vec) {
 		}
 		param = fmt.Sprintf("scale=%g corner=%d eps=%g", scale, corner, eps)
 	default: // offset: the set is far from the origin relative to its size
-		off := pow10(1 + rng.Intn(3))
+		// up to 2e4 extents away: farther than the half-width of the super triangle (8192 extents), which must
+		// be placed about the set, not about the origin
+		off := pow10(1 + rng.Intn(4))
 		cx, cy = scale*off*(1+rng.Float64()), -scale*off*(1+rng.Float64())
 		for i := 0; i < n; i++ {
 			add(rng.Float64(), rng.Float64())
